@@ -60,6 +60,8 @@ class T:
     class PairList: pass
     class Queue: pass
     class Opaque: pass
+    class ByteSeq: pass  # raw z3 Seq(BitVec 8) term (ghost/model state of library objects)
+    class BytesContent: pass  # bytes value whose content is modelled (SBytes with a Seq)
 
     class Enum:
         def __init__(self, cls): self.cls = cls
@@ -353,6 +355,12 @@ class World:
             h = self.method_stubs.get((c, name))
             if h is not None:
                 return h
+            # a class that implements the method in the verified source overrides stubs of its (abstract) bases
+            f = c.__dict__.get(name)
+            f = getattr(f, "__func__", f)
+            if isinstance(f, types.FunctionType) and not getattr(f, "__isabstractmethod__", False) \
+                    and self.index.lookup_real(f) is not None:
+                return None
         return None
 
     def find_attr_stub(self, cls, name):
@@ -479,6 +487,12 @@ class Interp:
             return SStr(z3.Const(name, StrSort))
         if t is T.Opaque:
             return Opaque(name)
+        if t is T.ByteSeq:
+            from .values import ByteSeq as _BS
+            return z3.Const(name, _BS)
+        if t is T.BytesContent:
+            from .values import ByteSeq as _BS
+            return SBytes(None, z3.Const(name, _BS))
         if t is T.Pair:
             return (z3.Int(name + ".0"), z3.Int(name + ".1"))
         if t is T.IntDict:
@@ -731,6 +745,8 @@ class Interp:
         if h is not None:
             self.stats["stubs_used"].add(getattr(callee, "__qualname__", repr(callee)))
             return h[1](self, args, kwargs, node)
+        if getattr(callee, "__qualname__", "") == "int.from_bytes" and getattr(w, "int_from_bytes", None):
+            return w.int_from_bytes(self, args, kwargs, node)
         if isinstance(callee, types.MethodType):
             # bound method of a real object (e.g. classmethod accessed through the class, logger method)
             slf = callee.__self__
